@@ -6,6 +6,7 @@ package main
 import (
 	"fmt"
 	"go/ast"
+	"go/types"
 
 	"golang.org/x/tools/go/ssa"
 )
@@ -25,9 +26,39 @@ func runC16(c *Ctx, r *Report) {
 	r.Doc("control", "engine positive/negative controls analysed on every run")
 	lenControls(c, r, "control")
 	armed, _ := sinkObligations(c, r, "R-C16.1", join, false)
-	r.Floor("R-C16.1", "size-tainted sinks in Join", armed, 1)
-
 	sf := p.SSAFunc(join)
+	// truncation helpers: first-party callees of Join that take the size (or a value derived from it) and a list
+	seenHelper := map[*ssa.Function]bool{}
+	allInstrs(sf, true, func(ins ssa.Instruction) {
+		call, ok := ins.(*ssa.Call)
+		if !ok {
+			return
+		}
+		cal := call.Call.StaticCallee()
+		if cal == nil || !p.firstParty(calleePkg(cal)) || seenHelper[cal] {
+			return
+		}
+		takesSize := false
+		for _, a := range call.Call.Args {
+			if isIntType(a.Type()) {
+				if t, _ := intTaint(a, map[ssa.Value]bool{}); t {
+					takesSize = true
+				}
+			}
+		}
+		if !takesSize {
+			return
+		}
+		seenHelper[cal] = true
+		if o, ok := cal.Object().(*types.Func); ok {
+			if hf := p.ByObj[o]; hf != nil {
+				a, _ := sinkObligations(c, r, "R-C16.1", hf, false)
+				armed += a
+			}
+		}
+	})
+	r.Floor("R-C16.1", "size-tainted sinks in Join and its truncation helpers", armed, 1)
+
 	entriesF := p.Field("", "IPFSLog", "Entries")
 	headsF := p.Field("", "IPFSLog", "heads")
 	valuesFn := p.FuncObj("", "IPFSLog", "values")
@@ -38,10 +69,29 @@ func runC16(c *Ctx, r *Report) {
 	for _, st := range es {
 		key := r.Key("R-C16.2", join, "store", "Entries")
 		bs := backSlice(st.Val, nil)
-		var slices []*ssa.Slice
+		var slices []ssa.Value
+		cutOperand := map[ssa.Value]ssa.Value{}
+		cutIsSuffix := map[ssa.Value]bool{}
 		for v := range bs {
-			if s, ok := v.(*ssa.Slice); ok {
+			switch s := v.(type) {
+			case *ssa.Slice:
 				slices = append(slices, s)
+				cutOperand[s] = s.X
+				cutIsSuffix[s] = s.Low != nil && s.High == nil
+			case *ssa.Call:
+				if cal := s.Call.StaticCallee(); cal != nil && p.firstParty(calleePkg(cal)) {
+					for i, a := range s.Call.Args {
+						if _, isSl := a.Type().Underlying().(*types.Slice); isSl {
+							if ok, _ := suffixOnly(p, cal, i, 0); ok {
+								if _, retSl := s.Type().Underlying().(*types.Slice); retSl {
+									slices = append(slices, s)
+									cutOperand[s] = a
+									cutIsSuffix[s] = true
+								}
+							}
+						}
+					}
+				}
 			}
 		}
 		if len(slices) == 0 {
@@ -49,7 +99,7 @@ func runC16(c *Ctx, r *Report) {
 			continue
 		}
 		// a heads store after this point (same block or dominated) sharing one of the slices
-		var shared *ssa.Slice
+		var shared ssa.Value
 		var hstore *ssa.Store
 		for _, h := range hs {
 			if !(h.Block() == st.Block() || st.Block().Dominates(h.Block())) {
@@ -66,10 +116,10 @@ func runC16(c *Ctx, r *Report) {
 			r.Violate("R-C16.2", key, st.Pos(), "the heads stored with the truncated index are not computed from the same truncated slice: heads can name entries that were cut off (or miss the new maximal ones)")
 			continue
 		}
-		suffix := shared.Low != nil && shared.High == nil
+		suffix := cutIsSuffix[shared]
 		// the slice operand comes from values(), called after the unbounded heads store
 		var vcall ssa.Instruction
-		for v := range backSlice(shared.X, nil) {
+		for v := range backSlice(cutOperand[shared], nil) {
 			if call, ok := v.(*ssa.Call); ok && calleeOf(call) == valuesFn {
 				vcall = call
 			}
@@ -197,6 +247,18 @@ func runC16(c *Ctx, r *Report) {
 					cal := "a function value"
 					if sc := x.Call.StaticCallee(); sc != nil {
 						cal = sc.Name()
+						// a helper that can only return a suffix of its list argument: the size merely picks the cut
+						isCut := false
+						for i, a2 := range x.Call.Args {
+							if _, isSl := a2.Type().Underlying().(*types.Slice); isSl && p.firstParty(calleePkg(sc)) {
+								if ok, _ := suffixOnly(p, sc, i, 0); ok {
+									isCut = true
+								}
+							}
+						}
+						if isCut {
+							return
+						}
 						// small pure int helpers (min/max-like) keep the value inside arithmetic
 						if lp := NewLenProver(p, sf); isIntType(x.Type()) && lp.summary(sc, x.Call.Args, linAtom("r"), false) != nil {
 							derived[x] = true
